@@ -240,6 +240,65 @@ fn oracle_c17_f64_tensors_are_refused_or_exact() {
     }
 }
 
+/// A device that accepts `open` but no data (/dev/full): an error, for small and large exports alike.
+#[test]
+fn oracle_c17_full_device_is_an_error() {
+    if !std::path::Path::new("/dev/full").exists() {
+        return;
+    }
+    for shape in [(1usize, 2usize, 1usize), (2, 3, 2), (6, 40, 8)] {
+        let a = Array3::from_shape_fn(shape, |(c, o, j)| val64(c, o, j));
+        let n = shape.0 * shape.1 * shape.2;
+        let t = move || Tensor::<NdArray, 3>::from_data(TensorData::new(vec![1.5f32; n], [shape.0, shape.1, shape.2]), &Default::default());
+        let results: Vec<(&str, bool)> = vec![
+            ("save_csv", std::panic::catch_unwind(|| save_csv(&a, "/dev/full").is_err()).unwrap_or(false)),
+            ("save_csv_tensor", std::panic::catch_unwind(|| save_csv_tensor(t(), "/dev/full").is_err()).unwrap_or(false)),
+            ("save_arrow", std::panic::catch_unwind(|| save_arrow(&a, "/dev/full").is_err()).unwrap_or(false)),
+            ("save_parquet", std::panic::catch_unwind(|| save_parquet(&a, "/dev/full").is_err()).unwrap_or(false)),
+            ("save_parquet_tensor", std::panic::catch_unwind(|| save_parquet_tensor::<NdArray, _, f32>(&t(), "/dev/full").is_err()).unwrap_or(false)),
+        ];
+        for (f, ok) in results {
+            if !ok {
+                witness(format!("{{\"oracle\":\"c17\",\"function\":\"{f}\",\"path\":\"/dev/full\",\"shape\":{shape:?},\"what\":\"writing to a full device did not yield Err (panic, or success without the data being written)\"}}"));
+            }
+        }
+    }
+}
+
+/// A failed export leaves nothing behind: the next successful export (same thread, any entry point) holds exactly its own rows.
+#[test]
+fn oracle_c17_exports_do_not_depend_on_earlier_calls() {
+    let bad = "/nonexistent_dir_for_verif/sub/out.bin";
+    let big = Array3::from_shape_fn((3, 2, 3), |(c, o, j)| val64(c, o, j) + 1.0);
+    let small = Array3::from_shape_fn((2, 2, 2), |(c, o, j)| val64(c, o, j));
+    let tn = |shape: (usize, usize, usize)| {
+        let flat: Vec<f32> = (0..shape.0 * shape.1 * shape.2).map(|i| val32(i / (shape.1 * shape.2), (i / shape.2) % shape.1, i % shape.2)).collect();
+        Tensor::<NdArray, 3>::from_data(TensorData::new(flat, [shape.0, shape.1, shape.2]), &Default::default())
+    };
+    for round in 0..2 {
+        assert!(save_arrow(&big, bad).is_err() && save_parquet(&big, bad).is_err() && save_csv(&big, bad).is_err());
+        assert!(save_csv_tensor(tn((3, 2, 3)), bad).is_err() && save_parquet_tensor::<NdArray, _, f32>(&tn((3, 2, 3)), bad).is_err());
+        let (_d, p) = tmp("arrow");
+        save_arrow(&small, &p).unwrap();
+        let (f, b) = read_arrow(&p);
+        check_table(&format!("save_arrow after a failed export (round {round})"), "chain", "observation", (2, 2, 2), &|c, o, j| val64(c, o, j), f, b);
+        let (_d2, q) = tmp("parquet");
+        save_parquet(&small, &q).unwrap();
+        let (f, b) = read_parquet(&q);
+        check_table(&format!("save_parquet after a failed export (round {round})"), "chain", "observation", (2, 2, 2), &|c, o, j| val64(c, o, j), f, b);
+        // the two parquet entry points alternate with the same number of dimensions
+        save_parquet_tensor::<NdArray, _, f32>(&tn((2, 3, 2)), &q).unwrap();
+        let (f, b) = read_parquet(&q);
+        check_table(&format!("save_parquet_tensor after save_parquet (round {round})"), "observation", "chain", (2, 3, 2), &|c, o, j| val32(c, o, j) as f64, f, b);
+        save_parquet(&small, &q).unwrap();
+        let (f, b) = read_parquet(&q);
+        check_table(&format!("save_parquet after save_parquet_tensor (round {round})"), "chain", "observation", (2, 2, 2), &|c, o, j| val64(c, o, j), f, b);
+        let (_d3, r) = tmp("csv");
+        save_csv(&small, &r).unwrap();
+        check_csv(&format!("save_csv after a failed export (round {round})"), (2, 2, 2), &|c, o, j| val64(c, o, j), &r, |s| s.parse::<f64>().ok(), same64);
+    }
+}
+
 /// A path that cannot be written yields an error, not a panic or a partial success.
 #[test]
 fn oracle_c17_unwritable_path_is_an_error() {
